@@ -192,6 +192,17 @@ func genErsWorld(r *rand.Rand, now time.Time) *ersWorld {
 		w.pods = append(w.pods, p)
 		w.cat = append(w.cat, "other-eds-pod")
 	}
+	if r.Intn(5) == 0 {
+		// an unrelated pod of the namespace whose labels overlap: replica-set name label and canary
+		// label, but not the ExtendedDaemonSet name label
+		p := mkPod("n0", catUpToDateAvail, pick(r, a, b), a, nil)
+		delete(p.Labels, edsv1.ExtendedDaemonSetNameLabelKey)
+		p.Labels[edsv1.ExtendedDaemonSetReplicaSetCanaryLabelKey] = edsv1.ExtendedDaemonSetReplicaSetCanaryLabelValue
+		p.OwnerReferences = nil
+		p.Name = "stray-" + p.Name
+		w.pods = append(w.pods, p)
+		w.cat = append(w.cat, "stray-pod-overlapping-labels")
+	}
 	if len(w.dss) > 0 {
 		for k := 0; k < nn; k++ {
 			if r.Intn(2) == 0 {
